@@ -84,13 +84,19 @@ CLAIMED = {
               "extends chains, prefixes 3 deep, 1..3 base schemas incl. a chain of three, components once / repeated / diamond / mutually importing / self-importing.",
               "trusted: as C10; the mechanical expansion is computed by the harness from the statement.",
               "Lean 4 proof (composition lemmas on the model) + metamorphic real-vs-real + model correspondence", "§0.2, §7 C11"),
-    "C12": _c("PROVED (50 theorems): text level with %import lines anywhere at top level: the loader accepts iff the text conforms to the schema in force at each position and returns denoteI (C12_text_accept_iff_conformsI, C12_text_value_eq_denoteI);  C12_slot_admits_iff (an abstract slot admits a header iff it is the first claimant and the type is a recorded "
+    "C12": _c("PROVED (55 theorems): text level with %import lines anywhere at top level: the loader accepts iff the text conforms to the schema in force at each position and returns denoteI (C12_text_accept_iff_conformsI, C12_text_value_eq_denoteI);  C12_slot_admits_iff (an abstract slot admits a header iff it is the first claimant and the type is a recorded "
               "implementer), fixed-name slots, extender is not implementer, %import idempotent / adds exactly the declared implementers / refused "
-              "classes / visible only after its line; the this-load-only clause is false on the pinned tree (closed counterexample = known finding). "
+              "classes / visible only after its line; the this-load-only clause is false on the pinned tree (closed counterexample = known finding); on the faithful "
+              "history function (ZCV/Model/History.lean) the vocabulary of the schema object survives every history and what a slot admits afterwards is "
+              "stated exactly (C12_history_keeps_vocabulary, C12_slot_after_history_admits_iff, two-load witness C12_leak_admits_non_implementer). "
               "Exploration: worlds with abstract '*' and fixed-name slots, packages (also importing each other), %import through %define, 4-load histories.",
               _CFG_NOTE + " package import machinery is outside the model.", "Lean 4 proof (slot admission, unbounded) + reference-oracle exploration over histories", "§0.2, §7 C12"),
     "C13": _c("PROVED: no import-free parse or load changes the schema (C13_load_without_import_keeps_schema), C13_history_independent for import-free "
-              "histories of any length; with %import the schema changes (counterexample = known finding). Exploration: operation sequences on one "
+              "histories of any length; for EVERY history (with %import, failing loads, half-read components) on the faithful history function runHistoryApp: "
+              "the schema object afterwards is the schema with the history's addsubtype calls applied and nothing else (C13_history_exact, "
+              "C13_history_changes_only_implementers), tables only grow and only by declared implementers of imported components, unchanged iff no call adds a name "
+              "(C13_history_independent_iff_no_leak), later loads depend on the leak only, a load that imports the leaking components first is independent of it "
+              "(C13_importing_first_absorbs_the_leak); the leak itself = known finding. Tie: driver op histapp vs the digest of the real schema object and the outcome after every load of histories with %import. Exploration: operation sequences on one "
               "schema object vs fresh copies, structural digest after every operation, mutation of results, directed histories (schema-level "
               "import, dotted datatype names differing in case, reused loader after a failed %import).",
               _CFG_NOTE, "Lean 4 proof (frame/history theorems) + history exploration with structural digest", "§0.2, §7 C13"),
